@@ -51,6 +51,13 @@ def run(tier, wd):
             o["harness_case"] = T.harness_case(dtb, c["policy"], c["argv"], [c["argv"]] + sib_help)
             rep.violation("after earlier help requests on the same application: " + tc.describe([dtb], c) + ": " + "; ".join(t for _, t in js), o)
     rep.cov["rerun_cases"] = len(again)
+    # sub commands whose names are spelled like options; a hidden command (with a child) declared before its visible siblings: help
+    # requests after the application already printed its own help
+    pols = sorted(set(c["policy"] for c, _ in rows))
+    tc.add_tree(rep, wd, binpath, alphabet, pols, "c14-dash", T.dash_tree(), trs, rows)
+    rows_h = tc.add_tree(rep, wd, binpath, alphabet, ["continue"], "c14-hidden", T.hidden_tree(), trs, rows)
+    rep.cov["rerun_cases"] += tc.rerun(rep, wd, binpath, trs, [(c, r) for c, r in rows_h if c["kind"] == "help"],
+                                       lambda c: [["-h"], ["bogus"], c["argv"]], CLAUSES, "after earlier requests")
     off4 = len(trs)
     trs = trs + trs4
     for c, r in rows4:
